@@ -367,11 +367,13 @@ package graphql
 //@   call resolveObjectBatch assert arg1 == sources
 //@   call resolveObjectBatch assert arg2 == typ.Types[srcType]
 //@   call resolveObjectBatch assert arg4 == destinationsByType[srcType]
+//@   call resolveObjectBatch assert arg3 != nil && arg3.Selections == selectionSet.Selections      // the selections made on the union itself (__typename) reach every member, also one no fragment applies to (defect s23)
 //@   call resolveObjectBatch ghost nobj[srcType] = nobj[srcType] + 1
 //@   loop 1 invariant forall t string :: len(sourcesByType[t]) == len(destinationsByType[t]) && ((t in sourcesByType) ==> (t in typ.Types))
 //@   loop 2 invariant forall t string :: len(sourcesByType[t]) == len(destinationsByType[t]) && ((t in sourcesByType) ==> (t in typ.Types))
 //@   loop 3 invariant forall t string :: (visited[t] ==> nobj[t] == 1) && (!visited[t] ==> nobj[t] == 0)
 //@   loop 3 invariant forall t string :: len(sourcesByType[t]) == len(destinationsByType[t]) && ((t in sourcesByType) ==> (t in typ.Types))
+//@   loop 4 invariant applicable != nil && fresh(applicable) && applicable.Selections == selectionSet.Selections
 //@   ensures err == nil ==> forall t string :: (t in sourcesByType) ==> nobj[t] == 1
 
 // ---- C16: a failing field records its own error under its own path, first error wins.
